@@ -276,8 +276,10 @@ pcgstrf_MemInit(int_t n, int_t annz, superlumt_options_t *superlumt_options,
     iword     = sizeof(int_t);
     dword     = sizeof(complex);
 
-    if ( !cexpanders )
+    if ( !cexpanders ) {
       cexpanders = (ExpHeader *) SUPERLU_MALLOC(NO_MEMTYPE * sizeof(ExpHeader));
+      if ( !cexpanders ) SUPERLU_ABORT("SUPERLU_MALLOC fails for cexpanders");
+    }
 
     if ( refact == NO ) {
 
@@ -323,6 +325,11 @@ pcgstrf_MemInit(int_t n, int_t annz, superlumt_options_t *superlumt_options,
 	    xlusup_end = (int_t *)cuser_malloc((n) * iword, HEAD);
 	    xusub      = (int_t *)cuser_malloc((n+1) * iword, HEAD);
 	    xusub_end  = (int_t *)cuser_malloc((n) * iword, HEAD);
+	    if ( !xsup || !xsup_end || !supno || !xlsub || !xlsub_end ||
+		 !xlusup || !xlusup_end || !xusub || !xusub_end ) {
+		printf("Not enough memory to perform factorization.\n");
+		return (pcgstrf_memory_use(nzlmax, nzumax, nzlumax) + n);
+	    }
 	}
 
 	lusup = (complex *) pcgstrf_expand( &nzlumax, LUSUP, 0, 0, Glu );
